@@ -51,6 +51,19 @@ func renderQuery(o *obligation, withModel bool, extra []string) string {
 		collectAtoms(a, needed)
 	}
 	var strExt []*T
+	for _, f := range c.twins {
+		at := map[string]bool{}
+		collectAtoms(f, at)
+		ok := true
+		for n := range at {
+			if _, isConst := c.d.consts[n]; isConst && !needed[n] {
+				ok = false
+			}
+		}
+		if ok {
+			strExt = append(strExt, f)
+		}
+	}
 	for _, f := range c.strExt {
 		at := map[string]bool{}
 		collectAtoms(f, at)
